@@ -25,6 +25,8 @@ struct Case {
     wseed: u32,
     dseed: u32,
     stop_tol: i32,
+    /// a loop connection to try on both networks: (selector among the fitting ranges, iterations, input skips, loop accumulation)
+    looped: Option<(u32, usize, bool, Acc)>,
 }
 
 fn decode(tape: &[u32]) -> Case {
@@ -64,7 +66,42 @@ fn decode(tape: &[u32]) -> Case {
     let with_val = !t.chance(1, 5);
     // early stopping fires in part of the cases (tolerance 1 always stops after epoch 2)
     let stop_tol = [1000, 1000, 1, 2, 3][t.pick(5)];
-    Case { spec, epochs, with_val, batch: t.usize(1, 4), ntrain: t.usize(1, 6), nval: if t.chance(1, 12) { t.usize(65, 150) } else { t.usize(1, 5) }, wseed: t.raw(), dseed: t.raw(), stop_tol }
+    let (batch, ntrain, nval, wseed, dseed) = (t.usize(1, 4), t.usize(1, 6), if t.chance(1, 12) { t.usize(65, 150) } else { t.usize(1, 5) }, t.raw(), t.raw());
+    // (drawn last, so that earlier replay files keep their meaning)
+    // one case in three: feedback blocks get skip flags and any of the five accumulations
+    if t.chance(1, 3) {
+        for l in spec.layers.iter_mut() {
+            if let LayerSpec::Feedback { inskips, outskips, acc, loops, .. } = l {
+                *inskips = t.bool();
+                *outskips = t.bool();
+                if t.bool() {
+                    *acc = ACCS[t.pick(5)];
+                }
+                *loops = t.usize(2, 3);
+            }
+        }
+    }
+    // one case in three: leaky units become rectified ones (outputs that are exactly zero without any dropout)
+    if t.chance(1, 3) {
+        fn relu(l: &mut LayerSpec) {
+            match l {
+                LayerSpec::Dense { act, .. } | LayerSpec::Conv { act, .. } | LayerSpec::Deconv { act, .. } => {
+                    if *act == ActK::Leaky || *act == ActK::Linear {
+                        *act = ActK::ReLU;
+                    }
+                }
+                LayerSpec::Feedback { layers, .. } => layers.iter_mut().for_each(relu),
+                _ => {}
+            }
+        }
+        let last = spec.layers.len() - 1;
+        for l in spec.layers[..last].iter_mut() {
+            relu(l);
+        }
+    }
+    // one case in three: a loop connection over a range of plain layers whose output shape is its input shape
+    let looped = if t.chance(1, 3) { Some((t.raw(), t.usize(1, 2), t.bool(), ACCS[t.pick(5)])) } else { None };
+    Case { spec, epochs, with_val, batch, ntrain, nval, wseed, dseed, stop_tol, looped }
 }
 
 fn no_dropout(spec: &NetSpec) -> NetSpec {
@@ -104,8 +141,32 @@ fn dropout_effective(spec: &NetSpec) -> bool {
     eff
 }
 
-fn prepare(spec: &NetSpec, ps: &[(PRef, Tensor)]) -> Result<Network, String> {
+/// The range (a, b) the case's loop connection covers, if any range fits: plain layers only, output shape of b ==
+/// input shape of a as the library announces them.
+fn loop_range(spec: &NetSpec, net: &Network, sel: u32) -> Option<(usize, usize)> {
+    let shapes = announced_shapes(net).ok()?;
+    let mut fits = Vec::new();
+    for a in 0..spec.layers.len() {
+        for b in a..spec.layers.len() {
+            if spec.layers[a..=b].iter().any(|l| matches!(l, LayerSpec::Feedback { .. })) {
+                break;
+            }
+            if shapes[a].0 == shapes[b].1 {
+                fits.push((a, b));
+            }
+        }
+    }
+    if fits.is_empty() { None } else { Some(fits[sel as usize % fits.len()]) }
+}
+
+fn prepare(spec: &NetSpec, ps: &[(PRef, Tensor)], looped: Option<(usize, usize, usize, bool, Acc)>) -> Result<Network, String> {
     let mut n = build(spec)?;
+    if let Some((a, b, k, ins, acc)) = looped {
+        catch(std::panic::AssertUnwindSafe(|| {
+            n.set_accumulation(Acc::Add.lib(), acc.lib());
+            n.loopback(b, a, k, std::sync::Arc::new(|x| 1.0 / x), ins);
+        }))?;
+    }
     apply_params(&mut n, ps);
     n.set_objective(lib_obj(ObjK::MSE), None);
     n.set_optimizer(optimizer::SGD::create(0.03125, None));
@@ -129,6 +190,20 @@ fn check(case: &Case, ev: &mut CaseEv) -> CheckResult {
     }
     let a0 = build(spec).map_err(|p| Fail::new(format!("valid network rejected: {} ({:?})", p, spec)))?;
     let ps = seeded_params(&a0, spec, case.wseed, 1, 1.0);
+    let looped = case.looped.and_then(|(sel, k, ins, acc)| loop_range(spec, &a0, sel).map(|(a, b)| (a, b, k, ins, acc)));
+    if let Some((a, b, _, _, _)) = looped {
+        ev.class("loop connection");
+        if a >= 1 && spec.layers[a - 1].has_dropout() {
+            ev.class("loop connection entered right after a layer with dropout");
+        }
+        if spec.layers[a..=b].iter().any(|l| l.has_dropout()) {
+            ev.class("dropout inside the looped range");
+        }
+    }
+    let has_block_skips = spec.layers.iter().any(|l| matches!(l, LayerSpec::Feedback { inskips, outskips, acc, .. } if *inskips || *outskips || *acc != Acc::Mean));
+    if has_block_skips {
+        ev.class("feedback block with skips");
+    }
     let n_in = count(&spec.input);
     let out_dims = final_dims(spec);
     let mk = |seed: u32, n: usize| -> (Vec<Tensor>, Vec<Tensor>) {
@@ -144,16 +219,29 @@ fn check(case: &Case, ev: &mut CaseEv) -> CheckResult {
 
     // (3) a never-trained A predicts like B
     {
-        let a = prepare(spec, &ps).map_err(Fail::new)?;
-        let b = prepare(&twin_spec, &ps).map_err(Fail::new)?;
+        let a = prepare(spec, &ps, looped).map_err(Fail::new)?;
+        let b = prepare(&twin_spec, &ps, looped).map_err(Fail::new)?;
         for x in vx.iter() {
-            let (pa, pb) = (catch(|| a.predict(x)).map_err(Fail::new)?, catch(|| b.predict(x)).map_err(Fail::new)?);
+            let (pa, pb) = (catch(|| a.predict(x)).map_err(|p| Fail::new(format!("predict of the network with dropout layers panicked: {p}; loop {:?}; spec {:?}", looped, spec)))?, catch(|| b.predict(x)).map_err(|p| Fail::new(format!("harness: predict of the dropout-free twin panicked: {p}")))?);
             ensure!(tens::first_bit_diff(&tens::flat(&pa), &tens::flat(&pb)).is_none(), "a never-trained network with dropout layers predicts differently from the same network without dropout");
         }
     }
 
+    // (3b) one case in four: learn() with a budget of zero epochs must leave the network predicting like the twin as well
+    if case.wseed % 4 == 0 {
+        let mut a = prepare(spec, &ps, looped).map_err(Fail::new)?;
+        let b = prepare(&twin_spec, &ps, looped).map_err(Fail::new)?;
+        let r = catch(std::panic::AssertUnwindSafe(|| if case.with_val { a.learn(&txr, &tyr, Some((&vxr, &vyr, case.stop_tol)), case.batch, 0, None) } else { a.learn(&txr, &tyr, None, case.batch, 0, None) }));
+        if r.is_ok() {
+            ev.class("learn with zero epochs");
+            for x in vx.iter() {
+                let (pa, pb) = (catch(|| a.predict(x)).map_err(Fail::new)?, catch(|| b.predict(x)).map_err(Fail::new)?);
+                ensure!(tens::first_bit_diff(&tens::flat(&pa), &tens::flat(&pb)).is_none(), "after learn() with a budget of zero epochs the network with dropout layers predicts differently from the same network without dropout; spec {:?}", spec);
+            }
+        }
+    }
     for e in 1..=case.epochs {
-        let mut a = prepare(spec, &ps).map_err(Fail::new)?;
+        let mut a = prepare(spec, &ps, looped).map_err(Fail::new)?;
         let r = catch(std::panic::AssertUnwindSafe(|| {
             if case.with_val {
                 a.learn(&txr, &tyr, Some((&vxr, &vyr, case.stop_tol)), case.batch, e, None)
@@ -164,11 +252,24 @@ fn check(case: &Case, ev: &mut CaseEv) -> CheckResult {
         let (_tl, vl, va) = match r {
             Ok(v) => v,
             Err(p) => {
-                if p.contains("Loss is NaN") {
+                let outputs_nonfinite = vx.iter().chain(tx.iter()).any(|x| catch(|| a.predict(x)).map(|o| tens::flat(&o).iter().any(|v| !v.is_finite())).unwrap_or(true));
+                if p.contains("Loss is NaN") || outputs_nonfinite || collect_params(&a).iter().any(|(_, t)| tens::flat(t).iter().any(|v| !v.is_finite())) {
+                    // (a diverged network also aborts in arg-max over NaN outputs during its own validation)
                     ev.discard = Some("training diverged to NaN");
                     return Ok(());
                 }
-                fail!("learn panicked: {} ({:?})", p, spec);
+                if looped.is_some() || has_block_skips {
+                    // training through a loop connection or through a block with internal skips is refused for some
+                    // configurations, with or without dropout: only a refusal that the dropout-free twin does not
+                    // share is held against the dropout handling
+                    let mut b0 = prepare(&twin_spec, &ps, looped).map_err(Fail::new)?;
+                    let rb = catch(std::panic::AssertUnwindSafe(|| if case.with_val { b0.learn(&txr, &tyr, Some((&vxr, &vyr, case.stop_tol)), case.batch, e, None) } else { b0.learn(&txr, &tyr, None, case.batch, e, None) }));
+                    if rb.is_err() {
+                        ev.discard = Some("learn aborts for this loop connection / block with skips also without dropout");
+                        return Ok(());
+                    }
+                }
+                fail!("learn panicked: {}; loop {:?} ({:?})", p, looped, spec);
             }
         };
         let wa = collect_params(&a);
@@ -176,20 +277,30 @@ fn check(case: &Case, ev: &mut CaseEv) -> CheckResult {
             ev.discard = Some("non-finite weights");
             return Ok(());
         }
-        let mut b = prepare(&twin_spec, &wa).map_err(Fail::new)?;
+        let mut b = prepare(&twin_spec, &wa, looped).map_err(Fail::new)?;
         // (1) after learn returns, A predicts and validates like B
         for x in vx.iter().chain(tx.iter()) {
-            let (pa, pb) = (catch(|| a.predict(x)).map_err(Fail::new)?, catch(|| b.predict(x)).map_err(Fail::new)?);
+            let (pa, pb) = (catch(|| a.predict(x)).map_err(|p| Fail::new(format!("predict of the network with dropout layers panicked: {p}; loop {:?}; spec {:?}", looped, spec)))?, catch(|| b.predict(x)).map_err(|p| Fail::new(format!("harness: predict of the dropout-free twin panicked: {p}")))?);
             if let Some(i) = tens::first_bit_diff(&tens::flat(&pa), &tens::flat(&pb)) {
                 fail!("after learn() returned ({} epochs), predict element {} is {:e} but the identical network without dropout gives {:e}; dropout layers at {:?}; spec {:?}", e, i, tens::flat(&pa)[i], tens::flat(&pb)[i], positions, spec);
             }
         }
-        let (bl, ba) = catch(std::panic::AssertUnwindSafe(|| b.validate(&vxr, &vyr, 1e-6))).map_err(Fail::new)?;
-        let (al, aa) = catch(std::panic::AssertUnwindSafe(|| a.validate(&vxr, &vyr, 1e-6))).map_err(Fail::new)?;
+        let rb = catch(std::panic::AssertUnwindSafe(|| b.validate(&vxr, &vyr, 1e-6)));
+        let ra = catch(std::panic::AssertUnwindSafe(|| a.validate(&vxr, &vyr, 1e-6)));
+        let ((bl, ba), (al, aa)) = match (rb, ra) {
+            (Ok(x), Ok(y)) => (x, y),
+            (Err(_), Err(_)) => {
+                // (predictions were just shown bit-identical; with NaN outputs both abort in arg-max alike)
+                ev.discard = Some("validate aborts with and without dropout layers alike (non-finite outputs)");
+                return Ok(());
+            }
+            (Ok(_), Err(p)) => fail!("validate aborts with dropout layers ({}) but not for the identical network without; spec {:?}", p, spec),
+            (Err(p), Ok(_)) => fail!("validate aborts for the dropout-free twin ({}) but not with dropout layers; spec {:?}", p, spec),
+        };
         ensure!(al.to_bits() == bl.to_bits() && aa.to_bits() == ba.to_bits(), "validate after training: ({:e}, {:e}) with dropout layers vs ({:e}, {:e}) without; spec {:?}", al, aa, bl, ba, spec);
         // a stand-alone validate() must not switch dropout back on
         for x in vx.iter().take(2) {
-            let (pa, pb) = (catch(|| a.predict(x)).map_err(Fail::new)?, catch(|| b.predict(x)).map_err(Fail::new)?);
+            let (pa, pb) = (catch(|| a.predict(x)).map_err(|p| Fail::new(format!("predict of the network with dropout layers panicked: {p}; loop {:?}; spec {:?}", looped, spec)))?, catch(|| b.predict(x)).map_err(|p| Fail::new(format!("harness: predict of the dropout-free twin panicked: {p}")))?);
             if let Some(i) = tens::first_bit_diff(&tens::flat(&pa), &tens::flat(&pb)) {
                 fail!("after learn() and a stand-alone validate() on {} samples, predict element {} is {:e} but the dropout-free network gives {:e}; spec {:?}", case.nval, i, tens::flat(&pa)[i], tens::flat(&pb)[i], spec);
             }
@@ -233,14 +344,14 @@ impl Prop for C09 {
         Some(2)
     }
     fn rule(&self) -> String {
-        "tape-decoded layer sequence (1-4 generated layers of any kind incl. feedback blocks, ending in a dense layer, plus 0-2 further dense layers; a quarter of the networks end in a soft-max layer, half of those with dropout on it) with dropout (rate 0.05..0.95) on any subset incl. layers inside blocks (at least one), 1-4 epochs, with (4/5) or without validation data, early-stopping tolerance in {1000, 1, 2, 3} (so early stops occur), 1-6 training and 1-5 validation samples (one case in twelve: 65-150 validation samples), batch 1-4, SGD lr 1/32, MSE. Oracle: the dropout-free twin built from the same specification: (1) after learn() returns, copy the weights into the twin: predict and validate agree bitwise; (2) for e = 1..E a fresh network trained exactly e epochs reports as its last validation loss / accuracy what the twin's validate gives on those weights (bitwise); (3) a never-trained network predicts like the twin. Non-trivial: some dropout mask (recomputed with the public generator, seed 12345) zeroes >= 1 element, and validation data present. Distinct = (architecture with dropout pattern, epochs, validation y/n).".into()
+        "tape-decoded layer sequence (1-4 generated layers of any kind incl. feedback blocks, ending in a dense layer, plus 0-2 further dense layers; a quarter of the networks end in a soft-max layer, half of those with dropout on it) with dropout (rate 0.05..0.95) on any subset incl. layers inside blocks (at least one); in one case of three each the feedback blocks get random input / output skip flags, 2-3 loops and in half of those any of the five accumulations, leaky / linear units become rectified ones (exact zeros without any dropout), and a loop connection (1-2 iterations, input skips on/off, any accumulation) is put over a range of plain layers whose announced output shape equals its input shape (the same on the twin; a learn() that aborts for such a configuration with and without dropout alike, or a run whose outputs become non-finite, is discarded and counted); 1-4 epochs, with (4/5) or without validation data, early-stopping tolerance in {1000, 1, 2, 3} (so early stops occur), 1-6 training and 1-5 validation samples (one case in twelve: 65-150 validation samples), batch 1-4, SGD lr 1/32, MSE. Oracle: the dropout-free twin built from the same specification: (1) after learn() returns, copy the weights into the twin: predict and validate agree bitwise; (2) for e = 1..E a fresh network trained exactly e epochs reports as its last validation loss / accuracy what the twin's validate gives on those weights (bitwise); (3) a never-trained network, and (one case in four) a network after learn() with a budget of zero epochs, predicts like the twin. Non-trivial: some dropout mask (recomputed with the public generator, seed 12345) zeroes >= 1 element, and validation data present. Distinct = (architecture with dropout pattern, epochs, validation y/n).".into()
     }
     fn run_case(&self, tape: &[u32], ev: &mut CaseEv) -> CheckResult {
         check(&decode(tape), ev)
     }
     fn describe(&self, tape: &[u32]) -> Value {
         let c = decode(tape);
-        json!({"spec": format!("{:?}", c.spec), "epochs": c.epochs, "with_val": c.with_val, "batch": c.batch, "ntrain": c.ntrain, "nval": c.nval})
+        json!({"spec": format!("{:?}", c.spec), "epochs": c.epochs, "with_val": c.with_val, "batch": c.batch, "ntrain": c.ntrain, "nval": c.nval, "loop_request(selector, iterations, inskips, accumulation)": format!("{:?}", c.looped)})
     }
 }
 
